@@ -2,7 +2,7 @@ from driver import Leg
 SPEC = dict(
     level='exploration',
     design_ref='DESIGN.md section 3, C16',
-    rule=("one case = one random history of 50-600 public Queue operations (70 operation kinds incl. self-aliasing arguments, "
+    rule=("one case = one random history of 50-600 public Queue operations (71 operation kinds incl. self-aliasing arguments, "
           "EnsureSize with every flag combination, shrink, normalise, copy/move/swap) on a fresh Queue of item type int32 / String / "
           "owning instrumented type / bool (a trivial type whose never-written values UBSan can see), compared with std::deque after every operation; a case is non-trivial when the history left the "
           "inline 3-slot buffer and reached more than 3 items; distinct = distinct (seed, case) histories"),
@@ -14,5 +14,5 @@ SPEC = dict(
         Leg('model', 'h_queue', 'asan', opts={'mode': 'model'}, quick=24000, thorough=600000, workers=16, leaks=True),
         Leg('memcheck', 'h_queue', 'plain', opts={'mode': 'model'}, quick=480, thorough=9600, workers=16, valgrind=True),
     ],
-    min_stats={'model': {'cases_with_ring_wraparound': 100, 'cases_with_shrink': 100, 'cases_big': 10, 'type_bool': 1000}, 'regress': {'regress_F55_checked': 1}},
+    min_stats={'model': {'cases_with_ring_wraparound': 100, 'cases_with_shrink': 100, 'cases_big': 10, 'type_bool': 1000, 'iterator_surface_checks': 20000, 'iterator_surface_nonunit_stride_nonempty_walk': 5000}, 'regress': {'regress_F55_checked': 1, 'regress_iterator_assign_checked': 1}},
 )
